@@ -42,6 +42,19 @@ CLAIMS = {
             "Uint->Uint over {0,1,7,64,65,128,192}^2.",
             "Bounded: widths listed (quick subset); limb-slice lengths are concrete per harness because Kani/CBMC "
             "mis-model symbolic-length copy_from_slice on [u64] (spurious counterexamples, see DESIGN 8)."),
+    "C17": ("5/C17",
+            "Decoders alloy-rlp, fastrlp 0.3/0.4, rlp, SSZ, borsh, SCALE fixed (compact: thorough, 8/16 bits), DER "
+            "(DecodeValue with pre-built header; IntRef/UintRef), serde binary + integer visitors, postgres from_sql "
+            "for BOOL/INT2/INT4/INT8/OID/MONEY/BYTEA/BIT/VARBIT (NUMERIC and text types: thorough, tiny inputs) at "
+            "widths {0,1,7,8,12,16,60,64,65,72,120}: every byte string of symbolic length 0..=BYTES+3 (thorough +8): "
+            "no reachable panic anywhere on the decode path incl. the codec crate's header parsing, Ok(v) => v "
+            "canonical and equal to the value the input denotes (reference decoder in the harness), canonical-form "
+            "decoders re-encode to exactly the consumed bytes.",
+            "Bounded: inputs up to BYTES+8 bytes (property asks +16); quick tier widths {0,12,60,65} and heavy "
+            "decoders at {12,65} only; der::Decode::from_der's TLV header parser, serde_json/bincode front ends, "
+            "num-bigint TryFrom and strings longer than 3 bytes are outside reach (measured, DESIGN 5/C17); "
+            "alloc::fmt::format is stubbed (error-message formatting is not the subject); the compact decoder runs "
+            "with Uint::from_limbs_slice over-approximated (only its accept/reject outcome is affected)."),
     "C08": ("5/C08",
             "All 16 widths in {0,1,7,8,9,15,16,60,63,64,65,72,120,128,129,250}: every value x every byte position for "
             "the encoders (arrays, vectors, Cow, trimmed, copy-into-buffer with symbolic buffer length), and every byte "
